@@ -410,6 +410,47 @@ func (k *c07Run) lit(lit string, steer bool, extra ...string) {
 			k.check(lit, 3, cfg, steer)
 		}
 	}
+	// the other way to text: debug.ToString
+	k.check(lit, 0, "dbg", steer)
+	// the literal as a property key: it names the same property before and after
+	if len(lit)%2 == 0 || c07LitKind(lit) == "num" {
+		k.keyCheck(lit, c07Cfgs[len(lit)%len(c07Cfgs)], steer)
+	}
+}
+
+// keyCheck: `{<lit>: 1}` has the same single key in the source and in the emitted program
+func (k *c07Run) keyCheck(lit string, cfg string, steer bool) {
+	c := k.c
+	if strings.HasPrefix(lit, "`") {
+		return // a template literal is no property key
+	}
+	cls := c07Class(lit, cfg)
+	if cls != "" && steer {
+		return
+	}
+	src := "x = Object.keys({" + lit + ": 1})[0];"
+	input := map[string]any{"lit": hexOf(lit), "text": lit, "variant": "key", "cfg": cfg, "src": hexOf(src)}
+	guard(c, "", input, func() {
+		prog, errs := oaParse(src)
+		if len(errs) > 0 {
+			return
+		}
+		out := oaCompile(cfg, prog)
+		input["output"] = oaClip(out, 300)
+		sk, want := k.ev.run(src)
+		if sk != c07Value || !strings.HasPrefix(want, "string[") || c07GojaOctalQuirk(src) || c07GojaOctalQuirk(out) {
+			return
+		}
+		c.bump("keys-checked")
+		ek, got := k.ev.run(out)
+		switch {
+		case ek == c07Unusable:
+		case ek == c07JSError:
+			c.violation(cls, "with the literal as a property key the emitted program does not evaluate: "+got+"; the source gives "+oaClip(want, 120), input)
+		case got != want:
+			c.violation(cls, fmt.Sprintf("property key changed: source %s, emitted %s", oaClip(want, 200), oaClip(got, 200)), input)
+		}
+	})
 }
 
 func (k *c07Run) extraCfg() []string {
@@ -610,6 +651,10 @@ func oracleC07(c *oracleCtx) {
 					cfg := oaStr(m, "cfg")
 					if cfg == "" {
 						k.lit(lit, false)
+						return
+					}
+					if v, ok := m["variant"].(string); ok && v == "key" {
+						k.keyCheck(lit, cfg, false)
 						return
 					}
 					k.check(lit, recInt(m, "variant"), cfg, false)
